@@ -64,6 +64,8 @@ def switch_shapes():
                     body += "  default:\n    restart;\n    break;\n"
                 out.append(("switch:%dcase%s:%s" % (n, "+default" if dflt else "", last),
                             "sub vcl_recv {\n  switch (req.url) {\n%s  }\n}\n" % body))
+    out.append(("switch:concat-tests", "sub vcl_recv {\n  switch (req.url) {\n  case \"a\" \"b\":\n    esi;\n    break;\n"
+                "  case \"c\" + \"d\" req.http.E:\n    break;\n  default:\n    break;\n  }\n}\n"))
     return out
 
 
